@@ -273,7 +273,8 @@ function checkFile(ctx, c, p, text, ast, smapRes) {
         const printed = outSrc.lines.slice(dl).join('\n').slice(dc, dc + 4 * name.length + 64)
         const at = src.lines.slice(sl).join('\n').slice(sc, sc + 12 * name.length + 64)
         const okOut = printed.startsWith(name) || decodeEntities(printed).startsWith(name)
-        const okSrc = at.startsWith(name) || decodeEntities(at).startsWith(name) || decodeEntities(src.text.split('\n').slice(sl).join('\n').slice(sc)).startsWith(name) || camel(at.replace(/^data-/, '')).toLowerCase().startsWith(name.toLowerCase().slice(0, 3))
+        // (a directive name such as `wx:for-index` is never normalised: it must be the spelling at the position)
+        const okSrc = /^wx:/.test(name) ? at.toLowerCase().startsWith(name.toLowerCase()) : at.startsWith(name) || decodeEntities(at).startsWith(name) || decodeEntities(src.text.split('\n').slice(sl).join('\n').slice(sc)).startsWith(name) || camel(at.replace(/^data-/, '')).toLowerCase().startsWith(name.toLowerCase().slice(0, 3))
         if (!okOut) { viol(`source map: the printed text at ${dl}:${dc} is ${JSON.stringify(printed.slice(0, 20))}, the entry is named ${JSON.stringify(name)}`, {}); break }
         if (!okSrc) { viol(`source map: the name ${JSON.stringify(name)} is not the spelling at source ${sl}:${sc} (${JSON.stringify(at.slice(0, 20))})`, {}); break }
         report.cell('source_map', 'named', 'entries')
